@@ -129,12 +129,36 @@ def cases(tier, seed):
         u["lib"] = {"com.github.googlei18n.ufo2ft.filters": [{"name": "decomposeTransformedComponents", "pre": True}]} if k % 3 != 1 else \
                    {"public.skipExportGlyphs": ["B"]}
         sources.append(("ufo", {"kind": "ufo", "ufo": u}, f"gen-flatten-{k}"))
+    # contextual mark anchors ('*top' with an identifier that keys a GPOS_Context entry in the glyph's public.objectLibs): what
+    # the mark writer generates from them may not depend on whether the compile works on the sources or on copies
+    for k in range(2 if tier == "quick" else 8):
+        def sqr(x, y, w):
+            return [[x * P, y * P, "line"], [(x + w) * P, y * P, "line"], [(x + w) * P, (y + w) * P, "line"], [x * P, (y + w) * P, "line"]]
+
+        ctx = ["f *", "* tildecomb", "f * tildecomb"][k % 3]
+        g = {"a": {"cs": [sqr(20, 0, 300)], "comps": [], "w": 500 * P, "h": 0, "u": [0x61],
+                   "anchors": [{"n": "top", "x": 250 * P, "y": 500 * P}, {"n": "*top", "x": (200 + 10 * k) * P, "y": 550 * P, "id": "ctx1"}],
+                   "lib": {"public.objectLibs": {"ctx1": {"GPOS_Context": ctx}}}},
+             "f": {"cs": [sqr(10, 0, 200)], "comps": [], "w": 300 * P, "h": 0, "u": [0x66], "anchors": [{"n": "top", "x": 150 * P, "y": 700 * P}]},
+             "acutecomb": {"cs": [sqr(-60, 520, 40)], "comps": [], "w": 0, "h": 0, "u": [0x301],
+                           "anchors": [{"n": "_top", "x": -40 * P, "y": 500 * P}, {"n": "top", "x": -40 * P, "y": 650 * P}]},
+             "tildecomb": {"cs": [sqr(-70, 520, 50)], "comps": [], "w": 0, "h": 0, "u": [0x303],
+                           "anchors": [{"n": "_top", "x": -45 * P, "y": 500 * P}, {"n": "top", "x": -45 * P, "y": 640 * P}]}}
+        if k % 2:
+            g["acutecomb"]["anchors"].append({"n": "*top", "x": -30 * P, "y": 700 * P, "id": "ctx2"})
+            g["acutecomb"]["lib"] = {"public.objectLibs": {"ctx2": {"GPOS_Context": "* tildecomb"}}}
+        u = {"glyphs": g, "order": ["a", "f", "acutecomb", "tildecomb"],
+             "info": {"unitsPerEm": 1000, "ascender": 800, "descender": -200, "familyName": "Ctx", "styleName": "Regular"}}
+        sources.append(("ufo", {"kind": "ufo", "ufo": u}, f"gen-ctx-{k}"))
     out = []
     k = 0
     for kind, src, sid in sources:
         hists = UFO_HISTORIES if kind == "ufo" else DS_HISTORIES
         if sid.startswith("gen-layout") or sid.startswith("gen-propagate"):
             hists = [[("compileTTF", {})]]
+        elif sid.startswith("gen-ctx"):
+            hists = [[("compileTTF", {})], [("compileTTF", {"inplace": True})], [("compileOTF", {})], [("compileOTF", {"inplace": True})],
+                     [("compileTTF", {}), ("compileTTF", {"inplace": True})]]
         elif sid.startswith("gen-flatten"):
             hists = [[("compileTTF", {"flattenComponents": True})], [("compileTTF", {"flattenComponents": True, "inplace": True})],
                      [("compileTTF", {"flattenComponents": True}), ("compileTTF", {"flattenComponents": True, "inplace": True})],
@@ -153,7 +177,7 @@ def cases(tier, seed):
             # every history is run in >= 3 environments (quick) / all (thorough)
             if sid.startswith("gen-layout"):
                 chosen = [(hs, "ufoLib2", "memory") for hs in ["0", "1", "2", "3", "5", "17", "101", "4242"]] + [(seeds[0], "defcon", "disk")]
-            elif sid.startswith("gen-flatten"):
+            elif sid.startswith("gen-flatten") or sid.startswith("gen-ctx"):
                 chosen = [(seeds[0], "ufoLib2", "memory"), (seeds[1], "defcon", "memory")]
             elif sid.startswith("gen-ftconfig"):
                 chosen = [(seeds[0], "ufoLib2", "memory"), (seeds[1], "defcon", "memory")]
